@@ -3,6 +3,7 @@
 mod c02;
 mod c04;
 mod c07;
+mod c09;
 mod c11;
 
 fn main() {
@@ -11,6 +12,7 @@ fn main() {
         "C02" => c02::main(&env),
         "C04" => c04::main(&env),
         "C07" => c07::main(&env),
+        "C09" => c09::main(&env),
         "C11" => c11::main(&env),
         p => {
             eprintln!("rolesprop: unknown property {p}");
